@@ -104,6 +104,14 @@ class VMap(V):
         self.keys = keys
 
 
+class VSet(V):
+    """set of strings: z3 Array(String, Bool) + explicit cardinality (maintained on add);
+    value semantics with write-back like VSeq"""
+    def __init__(self, t, n):
+        self.t = t
+        self.n = n
+
+
 class VDictLit(V):
     """dict with a concrete spine: list of (key V, value V); mutable, lives in heap."""
     def __init__(self, did):
